@@ -303,7 +303,9 @@ def run_case(acc, case):
         write_package(case, root)
         import importlib
         importlib.invalidate_caches()
-        hs.resetGlobalHandles()
+        # (no hs.resetGlobalHandles() here: wpilib.Watchdog keeps ONE notifier of its own for the whole process; resetting
+        #  the HAL's handle table lets a later NotifierDelay receive the same handle number, and the two waiters then steal
+        #  each other's wake-ups - a robot thread stuck in wait() for good.  DESIGN.md 10.2 item 11)
         DriverStationSim.resetData()
         DriverStationSim.setFmsAttached(case["fms"])
         DriverStationSim.setDsAttached(True)
@@ -592,6 +594,24 @@ def run_api_period(acc, case, selector, ops, chosen, chosen_name, e):
 _SHARED = {}
 
 
+def _end_thread(acc, th, selector, gate, e, P):
+    """Make a robot thread that outlived its period leave run(): the selector is told that the robot exits, the gate is
+    opened and the clock moved on until the thread is gone."""
+    acc.ev("robot-thread-had-to-be-ended-by-the-harness")
+    try:
+        selector.endCompetition()
+    except Exception:  # noqa
+        pass
+    for _ in range(400):
+        gate.release()
+        e.advance(P)
+        th.join(0.05)
+        if not th.is_alive():
+            return True
+    acc.ev("robot-thread-still-alive(observation)")
+    return False
+
+
 def run_run_period(acc, case, selector, period, chosen, chosen_name, e):
     from . import simenv
     gate = simenv.Gate()
@@ -605,12 +625,17 @@ def run_run_period(acc, case, selector, period, chosen, chosen_name, e):
     marks = {}
 
     overruns = period.get("overruns") or {}
+    th_box = {}
 
     def iter_fn():
+        if threading.current_thread() is not th_box.get("th"):
+            return            # (a thread of an earlier period that is still on its way out: not this period's loop)
         iters.append(e.now())
         slow = overruns.get(str(len(iters) - 1))
         if slow:
-            e.advance(slow)          # this iteration's body takes that long
+            # this iteration's body takes that long: the clock is moved by the harness thread while this one is parked (a
+            # clock step made from inside the robot thread can lose the notifier wake-up of its own next wait() in the simulator)
+            gate.park(("body", slow))
             acc.ev("run-iteration-overran-the-loop-period" if slow > P else "run-iteration-with-a-slow-body")
         if disable_at is not None and len(iters) - 1 == disable_at:
             # disable() arrives in the middle of the period (e.g. called from the robot's own code)
@@ -646,6 +671,7 @@ def run_run_period(acc, case, selector, period, chosen, chosen_name, e):
         finally:
             gate.thread_ended()
     th = threading.Thread(target=target, daemon=True)
+    th_box["th"] = th
     e.robot_thread = th
     th.start()
     left = period["iterations"]
@@ -655,9 +681,14 @@ def run_run_period(acc, case, selector, period, chosen, chosen_name, e):
         st = gate.wait_parked(20)
         if st == "timeout":
             acc.ev("case-inconclusive")
+            _end_thread(acc, th, selector, gate, e, P)
             return "stop"
         if st == "ended":
             break
+        if isinstance(gate.current_delay, tuple):
+            e.advance(gate.current_delay[1])          # a slow iteration body
+            gate.release()
+            continue
         n_seen += 1
         left -= 1
         if left <= 0:
@@ -672,6 +703,13 @@ def run_run_period(acc, case, selector, period, chosen, chosen_name, e):
             e.step_to(al)
         gate.release()
     th.join(5)
+    if th.is_alive():
+        # (heavily loaded machine) the robot thread has not left run() yet.  It must not live on into later periods and
+        # cases: there it would run free - not gated any more - and call whatever iter_fn / mode is current then
+        _end_thread(acc, th, selector, gate, e, P)
+        e.gate = None
+        acc.ev("case-inconclusive")
+        return "stop"
     e.gate = None
     acc.ev("period-run")
     if P == 1000:
